@@ -1,12 +1,13 @@
 package c19
 
 import (
+	"strings"
 	"testing"
 )
 
 // FuzzToAddr: arbitrary port strings against the reference parser.
 func FuzzToAddr(f *testing.F) {
-	for _, s := range append([]string{"tcp/80", "udp/[::1]:53", "tcp/127.0.0.1:65535"}, malformed...) {
+	for _, s := range append([]string{"tcp/80", "udp/[::1]:53", "tcp/127.0.0.1:65535", "tcp/localhost:80", "udp/[fe80::1%lo]:53", "tcp/192.0.2.256:80", "udp/192.0.2:53", "tcp/[1::2::3]:80"}, malformed...) {
 		f.Add(s)
 	}
 	f.Fuzz(func(t *testing.T, s string) {
@@ -30,8 +31,23 @@ func FuzzToAddr(f *testing.F) {
 			}
 			return
 		}
-		// malformed by the reference: only assert for strings that are clearly outside the
-		// accepted grammar (no host part at all)
+		// host part that is not an IP literal (TestToAddrHosts): a name, zone or lenient numeric
+		// form may be rejected or become one concrete address, never the wildcard; a host that can
+		// be neither a literal nor a name must be rejected - checkParse knows which
+		if _, v, _ := refClassify(s); v == vSkip {
+			return
+		}
+		if _, v, class := refClassify(s); v == vSoft || v == vZoned || (v == vMalformed && class != "") {
+			if port := s[strings.LastIndexByte(s, ':')+1:]; len(port) > 1 && port[0] == '0' {
+				return // leading zero in the port
+			}
+			if err := checkParse(s); err != nil {
+				t.Fatal(err)
+			}
+			return
+		}
+		// malformed elsewhere: only assert for strings that are clearly outside the accepted
+		// grammar (no host part at all)
 		for _, c := range s {
 			if c == ':' || c == '[' || c == '%' || c == '+' || c == ' ' {
 				return
